@@ -20,3 +20,65 @@ def gen_crc(repo):
 
 
 GENERATORS = {"Crc": gen_crc}
+
+
+# ---------------------------------------------------------------------------
+# mod.rs : the DF17 checksum gate of `Message::from_reader_with_ctx` and the address/parity overlay
+# (`IcaoParity`), translated as data: which DF is gated, by which comparison with which literal;
+# which expression of the context becomes the reported address; which variants use it.
+# Anything that is not of this exact shape is an ExtractError (the tie is broken, never guessed).
+# ---------------------------------------------------------------------------
+
+_CMP = {">": "decide (c > {k})", ">=": "decide (c ≥ {k})", "!=": "decide (c ≠ {k})",
+        "<": "decide (c < {k})", "<=": "decide (c ≤ {k})", "==": "decide (c = {k})"}
+
+
+def gen_crc_gate(repo):
+    src = strip_comments(read(repo, "crates/rs1090/src/decode/mod.rs"))
+    # --- the gate -----------------------------------------------------------------------------
+    m = re.search(r"let\s+crc\s*=\s*modes_checksum\s*\(\s*&remaining_bytes\s*,\s*bit_len\s*\)\s*\?\s*;\s*"
+                  r"match\s*\(\s*df\s*,\s*crc\s*\)\s*\{(.*?)\n\s*_\s*=>\s*\{", src, flags=re.S)
+    if not m:
+        raise ExtractError("mod.rs: `let crc = modes_checksum(&remaining_bytes, bit_len)?; match (df, crc) { … _ => {` not found")
+    arms = m.group(1)
+    g = re.fullmatch(r"\s*\(\s*(\d+)\s*,\s*(\w+)\s*\)\s*if\s+(\w+)\s*(>=|<=|!=|==|>|<)\s*([0-9a-fA-Fx_]+)\s*=>\s*"
+                     r"Err\s*\(\s*DekuError::Assertion\s*\(.*?\)\s*\)\s*,\s*", arms, flags=re.S)
+    if not g or g.group(2) != g.group(3) or "=>" in arms[arms.index("=>") + 2:]:
+        raise ExtractError("mod.rs: the arms before `_ =>` of `match (df, crc)` are not the single "
+                           "`(<DF>, c) if c <cmp> <literal> => Err(DekuError::Assertion(..)),`: " + " ".join(arms.split())[:160])
+    gate_df, op, lit = num(g.group(1)), g.group(4), num(g.group(5))
+    # the context handed to the DF parser is the checksum itself
+    if not re.search(r"DF::from_reader_with_ctx\s*\(\s*&mut\s+reader\s*,\s*crc\s*\)", src):
+        raise ExtractError("mod.rs: `DF::from_reader_with_ctx(&mut reader, crc)` not found")
+    # the frame length rule next to it
+    if not re.search(r"let\s+df\s*=\s*remaining_bytes\[0\]\s*>>\s*3\s*;", src):
+        raise ExtractError("mod.rs: `let df = remaining_bytes[0] >> 3;` not found")
+    # --- IcaoParity ----------------------------------------------------------------------------
+    p = re.search(r'#\[deku\(ctx\s*=\s*"(\w+)\s*:\s*u32"\)\]\s*pub\s+struct\s+IcaoParity\s*\(\s*'
+                  r'#\[deku\(\s*bits\s*=\s*24\s*,\s*map\s*=\s*"\|\s*_?\w*\s*:\s*u32\s*\|\s*->\s*Result<_,\s*DekuError>\s*'
+                  r'\{\s*Ok\(\s*(.*?)\s*\)\s*\}"\s*\)\]\s*pub\s+u32\s*,?\s*\)', src, flags=re.S)
+    if not p:
+        raise ExtractError("mod.rs: `struct IcaoParity(#[deku(bits = 24, map = \"|_v: u32| -> Result<_, DekuError> { Ok(<expr>) }\")] pub u32)` not found")
+    if p.group(2) != p.group(1):
+        raise ExtractError(f"mod.rs: IcaoParity maps to `{p.group(2)}`, not to its context `{p.group(1)}` — cannot translate")
+    # every `ap: IcaoParity` field of DF receives the context `crc` unchanged
+    fields = re.findall(r'((?:#\[[^\]]*\]\s*)*)ap\s*:\s*IcaoParity\s*,', src)
+    if not fields:
+        raise ExtractError("mod.rs: no `ap: IcaoParity` field")
+    for attrs in fields:
+        c = re.findall(r'#\[deku\(\s*ctx\s*=\s*"(.*?)"\s*\)\]', attrs)
+        if c != ["crc"]:
+            raise ExtractError(f"mod.rs: an `ap: IcaoParity` field has context {c}, expected [\"crc\"]")
+    return (HEADER + "namespace Rs1090.Gen.CrcGate\n"
+            "/-- the downlink format whose frames are rejected on a bad checksum -/\n"
+            f"def GATE_DF : Nat := {gate_df}\n"
+            f"/-- the guard of that arm: `c {op} {lit}` -/\n"
+            f"def gateRejects (c : Nat) : Bool := {_CMP[op].format(k=lit)}\n"
+            "/-- `IcaoParity`: the value stored for the context `crc` -/\n"
+            "def icaoOfCtx (crc : Nat) : Nat := crc\n"
+            f"/-- number of `ap: IcaoParity` fields in `DF`, each with `ctx = \"crc\"` -/\n"
+            f"def AP_FIELDS : Nat := {len(fields)}\n"
+            "end Rs1090.Gen.CrcGate\n")
+
+
+GENERATORS["CrcGate"] = gen_crc_gate
